@@ -5,7 +5,7 @@
    is the state after the schedule [sched] (any list of (thread, choice)); [mk_cfg] rounds the
    requested capacity as muggle_channel_init does; hypothesis [wk = WSingle -> nw <= 1] is the
    documented usage of MUGGLE_CHANNEL_FLAG_WRITE_SINGLE. *)
-From MV Require Import C01.Model C01.ModelQ C01.ProofsArith C01.ProofsSC C01.ProofsView C01.ProofsViewM C01.ProofsOrder C01.ProofsQ C01.ProofsQV C01.ProofsDV gen.Params_C01.
+From MV Require Import C01.Model C01.ModelQ C01.ProofsArith C01.ProofsSC C01.ProofsView C01.ProofsViewM C01.ProofsOrder C01.ProofsQ C01.ProofsQV C01.ProofsDV C01.Dispatch C01.ProofsDispatch gen.Params_C01.
 Local Open Scope Z_scope.
 
 (* side condition on the code's memory orders: release on every store of write_cursor, acquire
@@ -168,3 +168,34 @@ Theorem dbuf_full_only_if_full : forall cap nb mt nw total ks sched,
   d_badwait s = 0%nat /\ d_cnt s (negb (d_front s)) = d_pending s.
 Proof. exact dbuf_full_only_if_full_all. Qed.
 Print Assumptions dbuf_full_only_if_full.
+
+(* muggle_channel_init, re-extracted by running it (as compiled from the working tree) for EVERY
+   flags value in [0, 512) -- all combinations of the writer-lock and reader-mode bits, valid,
+   invalid and one out-of-range bit: the return value, the normalised chan->flags, init_flags, the
+   mutexes / condition variable created and the five installed functions are exactly the model's
+   mode table (flag_wk / flag_rm select the lock sub-automaton and the writer / wake / reader
+   program points of coq/C01/Model.v).  Complete finite sweep by vm_compute; bound: 512 flag values *)
+Theorem chan_dispatch_matches_model : code_dispatch_table = map model_dispatch (flag_domain 512).
+Proof. vm_compute. reflexivity. Qed.
+Print Assumptions chan_dispatch_matches_model.
+
+(* capacity: for every requested capacity in [0, 1025] (and three requests whose rounding does not
+   fit muggle_sync_t) init refuses exactly when the model does, and otherwise capacity and the three
+   initial cursors are those of the model's initial state; muggle_next_pow_of_2 as used by init
+   agrees with round_cap around every power of two up to 2^32 *)
+Theorem chan_capacity_matches_model :
+  forallb cap_row_ok code_capacity_table = true /\
+  map (fun r => fst (fst (fst (fst (fst r))))) (firstn 1026 code_capacity_table) = flag_domain 1026 /\
+  forallb pow2_row_ok code_pow2_table = true /\ Nat.leb 90 (length code_pow2_table) = true.
+Proof. vm_compute. repeat split; reflexivity. Qed.
+Print Assumptions chan_capacity_matches_model.
+
+(* ... and for ALL requests: round_cap is the least power of two >= the request, and in the range
+   the channel accepts (1 .. 2^31) the model's init_cap is that rounding *)
+Theorem chan_capacity_rounding : forall req, 1 <= req ->
+  (exists k, 0 <= k /\ round_cap req = 2 ^ k /\ req <= round_cap req /\ (1 < req -> round_cap req < 2 * req)) /\
+  (req <= 2 ^ 31 -> init_cap req = Some (round_cap req)).
+Proof.
+  intros req H. split; [exact (round_cap_spec req H)|]. intros H2. apply init_cap_round. split; assumption.
+Qed.
+Print Assumptions chan_capacity_rounding.
